@@ -31,7 +31,7 @@ PROP = "C11"
 VERIF = os.path.dirname(os.path.dirname(os.path.abspath(__file__)))
 MEXSIM = os.path.join(VERIF, "mexsim")
 REPO = os.environ.get("VERIF_REPO", "/repo")
-PROBES = ["class_name_shared_by_two_namespaces", "class_name_prefix_of_another", "non_virtual_class_with_parent",
+PROBES = ["char_argument", "char_return", "class_name_shared_by_two_namespaces", "class_name_prefix_of_another", "non_virtual_class_with_parent",
           "derived_object_as_base_argument", "same_object_two_handles", "delete_base_chain", "exception_injected",
           "unload_clear_all", "returned_object_kept", "by_value_object_argument", "raw_pointer_argument",
           "shared_pointer_argument", "default_argument_omitted", "illformed_call_refused", "pair_return",
@@ -100,7 +100,7 @@ def _build_program(args):
     feats = {"enums": True, "force": force}
     if k < 0:          # the `thisargs` program: class templates using `This` as argument / return everywhere
         feats = {"enums": True, "force": ["template", "template", "enum_nested"], "this_args": True,
-                 "class_enum_nested": True, "plain_derive": False, "ref_returns": False, "static_void": False, "shuffle_functions": False, "untidy_layout": False}
+                 "class_enum_nested": True, "plain_derive": False, "ref_returns": False, "static_void": False, "shuffle_functions": False, "untidy_layout": False, "char_types": False}
     prog, itext, lib = MP.generate(tape, feats)
     open(os.path.join(d, "prog.i"), "w").write(itext)
     open(os.path.join(d, "lib.h"), "w").write(lib)
@@ -279,6 +279,10 @@ class Hist:
             if ty.name == "bool":
                 v = t.bool(0.5, "bool-val")
                 return S.MLogical(v), "b:%d" % v
+            if ty.name == "char":
+                v = t.pick(["a", "Z", "0", " ", "~"], "char-val")
+                self.pr("char_argument")
+                return S.MChar(v), "c:%d" % ord(v)
             if ty.name == "string":
                 v = t.pick(["", "a", "hello world", "x,y;z"], "str-val")
                 return S.MChar(v), "s:" + v.encode().hex()
@@ -330,6 +334,8 @@ class Hist:
                 return isinstance(v, S.MLogical)
             if ty.name == "string":
                 return isinstance(v, S.MChar)
+            if ty.name == "char":
+                return isinstance(v, S.MChar) and len(v.s) == 1
         if ty.kind == "eig":
             # a Vector is a column, a Point2/Point3 a 2x1 / 3x1 column; any real double array is a Matrix
             if not isinstance(v, S.MDouble):
@@ -458,6 +464,18 @@ class Hist:
                     val, want = int(val) & 0xFFFFFFFF, want & 0xFFFFFFFF
                 if val != want:
                     bad("value %r != %r" % (val, want))
+            elif ty.name == "char":
+                # today a char comes back in the low byte of a 1x1 unsigned array; a MATLAB char would be as right
+                if isinstance(o, S.MChar):
+                    val = ord(o.s[0]) if len(o.s) == 1 else None
+                elif isinstance(o, S.MArrayRef):
+                    val = o.scalar()
+                    self.s.simple("free %d" % o.slot, "ok")
+                else:
+                    val = self.s.num(o)
+                self.pr("char_return")
+                if val is None or (int(val) & 0xFF) != (int(r[2:]) & 0xFF):
+                    bad("char value %r != %r" % (val, r))
             elif ty.name == "double":
                 if not (isinstance(o, S.MDouble) and o.dims() == (1, 1) and
                         struct.pack("<d", o.data[0]).hex() == r[2:]):
@@ -737,6 +755,8 @@ class Hist:
                 out.append("d:" + struct.pack("<d", float(v.data[0])).hex())
             elif a.ty.kind == "prim" and n == "bool":
                 out.append("b:%d" % v.v)
+            elif a.ty.kind == "prim" and n == "char":
+                out.append("c:%d" % ord(v.s[0]) if isinstance(v, S.MChar) and v.s else None)
             elif a.ty.kind == "prim" and n == "string":
                 out.append("s:" + v.s.encode().hex())
             elif a.ty.kind == "eig":
